@@ -36,45 +36,48 @@ def _time_order_joint(E, K, N):
 
 
 def _linear_map(mseq_or_marg, K, n, d, key, table, reverse=True):
-    """-> (sample with zero draws, W) using prescribed base draws"""
-    keys = markov.key_schedule(key, K) if reverse else None
-    if not reverse:
-        # forward sequence: sample0 from the initial marginal, then the scan in time order
-        k, sub0 = jax.random.split(key, num=2)
-        keys = [sub0]
-        for _ in range(K):
-            k, sub = jax.random.split(k, num=2)
-            keys.append(sub)
-    kd = np.stack([np.asarray(x, dtype=np.uint32) for x in keys])
+    """-> (sample with zero draws, W, problem) using prescribed base draws.
+
+    The keys are not predicted: a first eager run records which key every draw is made with (any key discipline is
+    fine as long as the K+1 draws use distinct keys); the prescribed draws are then looked up by key."""
+    del reverse
+
+    def sample_once():
+        if K == 0:
+            s = mseq_or_marg.sample_tree(key)
+            return markov.flatten_sample([jnp.asarray(x)[None] for x in s], 0, n, d).reshape(-1)
+        s = mseq_or_marg.sample(key)
+        return markov.flatten_sample(s, K, n, d).reshape(-1)
+
+    # phase 1: record the keys (eagerly, so that every draw inside the scan is a separate call with a concrete key)
+    table.keys = jnp.zeros((1, 2), dtype=jnp.uint32)
+    table.draws = jnp.zeros((1, 16))
+    table.calls, table.seen_keys = [], []
+    with jax.disable_jit():
+        sample_once()
+    sizes = [int(np.prod(c)) for c in table.calls]
+    kd = np.stack([np.asarray(k, dtype=np.uint32) for k in table.seen_keys])
+    if len(sizes) != K + 1:
+        return None, None, f"{len(sizes)} base draws for {K + 1} time points"
     if len({tuple(r) for r in kd.tolist()}) != len(kd):
         return None, None, "two draws use the same key"
-    width = 16
+    if len(set(sizes)) != 1:
+        return None, None, f"base draws of different sizes {sizes}"
     table.keys = jnp.asarray(kd)
+    width = 16
 
     def run(draws):
         table.draws = jnp.asarray(draws)
-        table.calls = []
-        if K == 0:
-            s = mseq_or_marg.sample_tree(keys[0])
-            return np.concatenate([np.asarray(x).reshape(-1) for x in jax.tree_util.tree_leaves([s])]) if False else markov.flatten_sample([jnp.asarray(x)[None] for x in s], 0, n, d).reshape(-1), list(table.calls)
-        s = mseq_or_marg.sample(key)
-        return markov.flatten_sample(s, K, n, d).reshape(-1), list(table.calls)
+        return sample_once()
 
     zero = np.zeros((K + 1, width))
-    s0, calls = run(zero)
-    sizes = [int(np.prod(c)) for c in calls]
-    # the scan body is traced once: one call for the anchor marginal and (if K > 0) one for the loop body
-    if len(sizes) != (1 if K == 0 else 2) or len(set(sizes)) != 1:
-        return s0, None, f"unexpected base-draw calls {calls} for {K + 1} time points"
+    s0 = run(zero)
     cols = []
-    # calls are in program order: terminal first (reverse) / initial first (forward), then the scan (traced once)
-    per_time = sizes[0]
     for j in range(K + 1):
-        for c in range(per_time):
+        for c in range(sizes[0]):
             dr = zero.copy()
             dr[j, c] = 1.0
-            s, _ = run(dr)
-            cols.append(s - s0)
+            cols.append(run(dr) - s0)
     return s0, np.stack(cols, axis=1), None
 
 
@@ -197,8 +200,3 @@ def _prior_grid(rep, tier, rng, table):
             rep.violation(f"impl:from_grid:{kind}:zero-draws-are-not-the-prior-means", f"{kind} q={q} d={d}: relerr {exact.maxerr(s0, means):.2e}", {})
         if not exact.close(W @ W.T, joint, 1e-9):
             rep.violation(f"impl:from_grid:{kind}:gram-of-the-linear-map-is-not-the-joint-prior-covariance", f"{kind} q={q} d={d}: relerr {exact.maxerr(W @ W.T, joint):.2e}", {})
-
-
-def replay(rep_obj) -> int:
-    print(rep_obj.get("what"))
-    return 1
